@@ -31,6 +31,16 @@ TreeClauses(e) ==
            /\ (ns[j].parent = -1) = (ns[j].plen = ns[1].plen /\ j = 1)
            /\ ns[j].parent >= 0 => (ns[ns[j].parent + 1].plen = ns[j].plen - 1 /\ ns[j].pstr_prefix_ok)>>,
      <<"FlatAndNestedSameNodes", ok => e.nested_same>>,
+     \* a node that shows a rule is filed under that rule's path in its plain form (DataPath.simplify: a primitive
+     \* wherever the part is what the primitive would be coerced to - whatever the key is: "", 0.0, ...)
+     <<"NodePathIsTheSimplifiedRulePath", ok => \A j \in 1..Len(ns) : ns[j].ri > 0 =>
+           \* (in a sub-tree the paths start at the last component of the sub-tree root's path)
+           LET full == Simplify(e.rules[ns[j].ri].path)
+               nfp == IF e.from = 0 THEN 0 ELSE Len(e.rules[e.from].path.parts)
+               drop == IF nfp = 0 THEN 0 ELSE nfp - 1
+               sp == SubSeq(full, drop + 1, Len(full)) IN
+           /\ Len(ns[j].path) = Len(sp)
+           /\ \A q \in 1..Len(sp) : ns[j].path[q].prim = sp[q].prim /\ (sp[q].prim => Same(ns[j].path[q].v, sp[q].v))>>,
      <<"RequiredIffRequiredKeysNamesIt", ok => \A j \in 1..Len(ns) :
            (ns[j].parent >= 0 /\ ns[ns[j].parent + 1].ri > 0 /\ ns[j].key.k \in {"str", "int"}) =>
               LET pc == e.rules[ns[ns[j].parent + 1].ri].cond IN
